@@ -60,6 +60,12 @@ ASSUMPTIONS = [
     "within epsilon/1000 of a bound or under 30-fold cancellation; a row that vanishes exactly under orthogonalisation is "
     "not compared; the number of iterations a trial reports must be the number of normalize calls minus one",
     "nets that list a module twice are inside the quantifier (the reader accepts them; 'every module is on some net' holds)",
+    "fixed modules and fixed terminals are generated on the four edges of the die, at its corners and beyond the right / top "
+    "edge (by one binary64 step up to 1000 dies): 'discs fit in the die' is read as a condition on the MOVABLE modules (a "
+    "fixed module is not placed), 'leaves fixed modules where they were' has no condition on where they are; the oracle "
+    "still skips a netlist in which the disc of a fixed module's area is larger than the die. A fixed centre with a negative "
+    "coordinate is rejected by the code (`coord < 0` means unknown: assert not fixed): such a run raises and is outside the "
+    "property, the model must reject it as well",
     "kind cli (tools.spectral.spectral.main) is observed through the files it reads and writes and checked by the direct "
     "oracle only; module and net order of the output file are not compared",
 ]
@@ -478,6 +484,122 @@ def gen_layout_struct(rng, big=False):
             "seed": rng.randrange(0, 10000)}
 
 
+# ---------------------------------------------------------------- fixed modules / terminals on the edges and outside
+# "leaves fixed modules where they were" has no condition on WHERE they are: pins are drawn on the boundary of the core or
+# outside it.  "discs fit in the die" is about the movable modules (a fixed module is not placed), so a fixed module or
+# fixed terminal on an edge, at a corner or beyond the right / top edge is inside the quantifier.  A fixed centre with a
+# NEGATIVE coordinate is rejected by the unchanged code (`coord < 0` means "unknown": assert not fixed) - a run that raises
+# is outside the property; a few are generated so that the model has to reject them as well.
+FAR_CLASSES = ["in", "edge0", "edge1", "just", "little", "lot"]
+FAR_PATTERNS = ["edges", "corners", "beyond", "beyond", "beyond", "diag", "mixed", "mixed", "seed"]
+FAR_ORDER = ["seed", "edges", "beyond", "corners", "diag", "mixed", "beyond", "mixed", "beyond"]      # the layout stream
+
+
+def far_coord(rng, S, cls):
+    """one coordinate of a fixed centre in a die of size S in that axis"""
+    S = F(S)
+    if cls == "edge0":
+        return F(0)
+    if cls == "edge1":
+        return S
+    if cls == "just":        # beyond the edge by very little: one binary64 step, 2^-20, 1/8
+        return rng.choice([core.frac(math.nextafter(float(S), math.inf)), core.frac(float(S)) + F(1, 2 ** 20), S + F(1, 8)])
+    if cls == "little":      # the seed: 11.5 on a die of width 10
+        return S + rng.choice([F(3, 2), F(1, 2), S / 8, S * F(15, 100), S / 2, F(2)])
+    if cls == "lot":
+        return rng.choice([S * 2, S * 5, S * 10, S * 100, S * 1000, S + 1000])
+    if cls == "neg":         # rejected (AssertionError) by the unchanged code
+        return rng.choice([F(-1, 8), F(-1), -S])
+    return dy(rng, 0, S, 8)
+
+
+def far_points(rng, W, H, pattern):
+    """centres for the fixed modules of one netlist, as pairs of classes"""
+    out = ["edge0", "edge1", "just", "little", "lot"]
+    if pattern == "edges":       # one on each of the four edges
+        pts = [("edge0", "in"), ("edge1", "in"), ("in", "edge0"), ("in", "edge1")]
+    elif pattern == "corners":
+        pts = [("edge0", "edge0"), ("edge1", "edge0"), ("edge0", "edge1"), ("edge1", "edge1")]
+    elif pattern == "beyond":    # beyond ONE edge (right or top), by a little and by a lot
+        pts = [(rng.choice(out[2:]), "in"), ("in", rng.choice(out[2:])), (rng.choice(out[2:]), rng.choice(["edge0", "edge1"])),
+               (rng.choice(["edge0", "edge1"]), rng.choice(out[2:]))]
+    elif pattern == "diag":      # beyond the top right corner / beyond one edge and on the other axis' far edge
+        pts = [(rng.choice(out[2:]), rng.choice(out[2:])), ("lot", "just"), ("just", "lot"), ("little", "little")]
+    elif pattern == "seed":      # PAD_E (11.5, 3) / PAD_N (4, 8) / PAD_W (0, 2) on 10 x 6
+        pts = [("little", "in"), ("in", "little"), ("edge0", "in")]
+    else:
+        pts = [(rng.choice(FAR_CLASSES), rng.choice(FAR_CLASSES)) for _ in range(4)]
+    if pattern != "seed":
+        rng.shuffle(pts)
+    return [(cx, cy, [far_coord(rng, W, cx), far_coord(rng, H, cy)]) for cx, cy in pts]
+
+
+def far_fixed(rng, case, pattern=None, neg=False):
+    """the same netlist with its fixed modules and fixed terminals put on the edges, at the corners and outside the die,
+    and one to four more of them, each on a net of its own with a movable module"""
+    pattern = pattern or rng.choice(FAR_PATTERNS)
+    W, H = case["W"], case["H"]
+    pts = far_points(rng, W, H, pattern)
+    mods, nets = [dict(m) for m in case["mods"]], [dict(e, mods=list(e["mods"])) for e in case["nets"]]
+    movable = [m["name"] for m in mods if m["kind"] in ("soft", "hard")]
+    rmax = float(min(W, H)) / 2
+    k = 0
+
+    def rect_at(c):
+        # a small rectangle CENTRED at the point (it straddles the edge it lies on; its lower left corner may be outside)
+        w, h = max(F(1, 8), F(int(rmax * 4), 32)), max(F(1, 8), F(int(rmax * 4), 64))
+        return [[c[0], c[1], w, h]] + ([[c[0] + w / 2 + w / 8, c[1], w / 4, h / 2]] if rng.random() < 0.3 else [])
+
+    for m in mods:                       # the ones it already has
+        if m["kind"] == "termfixed" and k < len(pts):
+            m["center"] = list(pts[k][2])
+            k += 1
+        elif m["kind"] == "fixed" and k < len(pts) and rng.random() < 0.7:
+            m["rects"] = rect_at(pts[k][2])
+            k += 1
+    want = rng.choice([1, 2, 2, 3, 4]) if pattern != "seed" else 3
+    j = 0
+    while k < len(pts) and j < want:
+        if pattern != "seed" and rng.random() < 0.25:
+            mods.append({"name": f"Q{j}", "kind": "fixed", "rects": rect_at(pts[k][2])})
+        else:
+            mods.append({"name": f"P{j}", "kind": "termfixed", "center": list(pts[k][2])})
+        pins = [mods[-1]["name"], rng.choice(movable)]
+        if rng.random() < 0.3:
+            pins.append(rng.choice(movable))
+        if rng.random() < 0.5:
+            pins.reverse()
+        nets.insert(rng.randrange(len(nets) + 1), {"mods": pins, "w": float(rng.choice([1, 1, 2, 0.5]))})
+        k, j = k + 1, j + 1
+    if neg:
+        if not any(m["kind"] == "termfixed" for m in mods):       # only fixed modules were added: the last one becomes a pad
+            q = mods[-1]
+            mods[-1] = {"name": q["name"], "kind": "termfixed", "center": list(q["rects"][0][:2])}
+        t = rng.choice([m for m in mods if m["kind"] == "termfixed"])
+        t["center"][rng.randrange(2)] = far_coord(rng, W, "neg")
+    return dict(case, mods=mods, nets=nets, far=pattern + ("/neg" if neg else ""))
+
+
+def gen_die_far(rng, pattern=None):
+    """spectral_layout_die with one to three fixed nodes on the edges, at the corners and beyond the right / top edge"""
+    case = gen_die(rng)
+    n = len(case["fx"])
+    fx = [False] * n
+    for i in rng.sample(range(n), rng.choice([1, 1, 2, 3]) if n >= 6 else 1):
+        fx[i] = True
+    pattern = pattern or rng.choice([p for p in FAR_PATTERNS if p != "seed"])
+    pts = far_points(rng, case["W"], case["H"], pattern)
+    ini = [list(case["ini"][0]), list(case["ini"][1])]
+    k = 0
+    for i in range(n):
+        if fx[i]:
+            ini[0][i], ini[1][i] = pts[k][2]
+            k += 1
+        elif case["fx"][i]:
+            ini[0][i], ini[1][i] = F(-1), F(-1)
+    return dict(case, fx=fx, ini=ini, far=pattern)
+
+
 def repeat_pins(rng, case):
     """nets that list a module more than once (the reader accepts them; every listed pin is a pin), the same net twice"""
     nets = [dict(e, mods=list(e["mods"])) for e in case["nets"]]
@@ -553,6 +675,8 @@ def other_call(rng, case, init_ok=True):
     another trial count, another seed"""
     need = 2 * radius_needed(case) * (1 + 1e-9)
     ex, ey = fixed_extent(case)
+    if case.get("far"):
+        ex, ey = 0.0, 0.0                  # fixed modules may lie on the edges of the other die or outside it as well
     W, H = case["W"], case["H"]
     fs = [F(1), F(5, 4), F(3, 2), F(2), F(3, 4), F(1, 2), F(7, 8)]
     cw = [W * f for f in fs] + [H]
@@ -608,6 +732,8 @@ def gen_chain(rng, nmov=None, base=None):
            "names": base["names"], "form": base["form"], "ints": base["ints"], "phases": phases}
     if base.get("struct"):
         out["struct"] = base["struct"]
+    if base.get("far"):
+        out["far"] = base["far"]
     return out
 
 
@@ -1117,9 +1243,11 @@ def run_chain(case):
     return obs
 
 
-def gen_cli(rng, repeated=False, struct=False):
+def gen_cli(rng, repeated=False, struct=False, far=False):
     """the command line tool: netlist file, die as '<W>x<H>' / die file / YAML text, --init or --bestof, output file"""
     case = gen_layout_struct(rng) if struct else gen_layout(rng)
+    if far:
+        case = far_fixed(rng, case)
     if repeated:
         repeat_pins(rng, case)
     case = decorate(rng, case)
@@ -1868,6 +1996,7 @@ def run(ctx, out, replay=None):
     nl = 24 if quick else 180
     nc = 12 if quick else 60
     ncli = 5 if quick else 30
+    nfar = (4, 6, 2, 2) if quick else (30, 60, 20, 15)       # fixed modules on the edges / outside: die, layout, chain, cli
     out.rule = ("kernels on dyadic vectors (normalize: entries k/8, zeros, entries at, one ulp around and near the 10e-10 "
                 "threshold, spans k/4 incl. 0, fixed flags; orthogonalize: 2-4 rows incl. the all-ones row, masses zero on "
                 "fixed nodes or not, parallel rows, all nodes fixed, normalised dot product exactly at / one unit below / above "
@@ -1892,7 +2021,12 @@ def run(ctx, out, replay=None):
                 "exact balance (incl. a 1/64 share beside a 63/64 share) / one big / random, dyadic; 0 trials in 2 of 3. Nets that "
                 "list a module twice ([a,d,a,e], [a,a], [a,b,a], [a,a,a,b]) and the same net twice in every 4th layout, 25% of the "
                 "chains, every 3rd cli case. The netlist is handed over as text, file name, open file, StringIO or YAML tree. "
-                "non-trivial: kernels "
+                "FIXED modules and fixed terminals on the four edges, at the corners and beyond the right / top edge of the die "
+                "(per axis: inside, 0, the die size, beyond it by one binary64 step / 2^-20 / 1/8, by 1/8..1/2 die, by 2..1000 dies; "
+                "patterns: one per edge, the four corners, beyond one edge, beyond the corner, mixed, the pads E/N/W of the seeded "
+                "netlist; a few with a negative coordinate, which the code rejects) in a stream of their own through "
+                "spectral_layout_die, spectral_layout, several calls on one object (other dies: what was on the edge is then "
+                "inside or outside) and the command line tool. non-trivial: kernels "
                 "with >= 2 entries not all fixed; rc with >= 2 rectangles; every die/layout/chain case")
     first = []
     if replay and "case" in replay:
@@ -1933,6 +2067,21 @@ def run(ctx, out, replay=None):
         heavy.append(case)
     for i in range(ncli):
         heavy.append(gen_cli(rng, repeated=(i % 3 == 1), struct=(i % 3 == 2)))
+    # fixed modules and fixed terminals on the four edges, at the corners and beyond the right / top edge (by one binary64
+    # step ... 1000 dies), in every stream; the first layout is the seed's netlist shape (pads E, N beyond, W on the edge)
+    far_rng = random.Random(f"far-{ctx.seed}")
+    for i in range(nfar[0]):
+        heavy.append(gen_die_far(far_rng, ["beyond", "corners", "diag", "edges", "mixed"][i % 5]))
+    for i in range(nfar[1]):
+        case = far_fixed(far_rng, gen_layout_struct(far_rng) if i % 4 == 3 else gen_layout(far_rng),
+                         pattern=FAR_ORDER[i % len(FAR_ORDER)], neg=(i % 8 == 5))
+        if i % 4 == 2:
+            case["nf"] = 0 if all(m["kind"] != "soft" or "center" in m or m.get("rects") for m in case["mods"]) else case["nf"]
+        heavy.append(decorate(far_rng, case) if i % 2 else case)
+    for i in range(nfar[2]):
+        heavy.append(gen_chain(far_rng, base=far_fixed(far_rng, gen_layout(far_rng), pattern=FAR_PATTERNS[(2 * i + 1) % len(FAR_PATTERNS)])))
+    for i in range(nfar[3]):
+        heavy.append(gen_cli(far_rng, repeated=(i % 3 == 1), far=True))
     every = 8 if quick else 3
     for i, case in enumerate(heavy):
         case["look"] = look_struct if case.get("struct") else look_some if i % every == 0 else look_none
@@ -1971,7 +2120,8 @@ def run(ctx, out, replay=None):
 
     def dkey(c):
         return (c["kind"] + ("/" + c["style"] if c["kind"] in ("chain", "rc") else "") +
-                ("/struct:" + c["struct"].split("/")[0] if c.get("struct") else "") + ("/pins" if c.get("pins") else ""))
+                ("/struct:" + c["struct"].split("/")[0] if c.get("struct") else "") + ("/pins" if c.get("pins") else "") +
+                ("/far:" + c["far"] if c.get("far") else ""))
 
     agreements, timing = 0, {"implementation_on_layouts": t_pre}
     for name, batch, shard, shr in (("corpus", first, 3, shrink), ("kernels", light, 250, shrink), ("layouts", heavy, 2, None)):
